@@ -1270,6 +1270,13 @@ impl Drop for Popen {
     // detach().
     fn drop(&mut self) {
         if let (false, &Running { .. }) = (self.detached, &self.child_state) {
+            // Close our ends of the pipes before waiting.  A child
+            // that waits for EOF on its stdin, or that is blocked
+            // writing output no one will read any more, would
+            // otherwise never exit and the wait would deadlock.
+            self.stdin.take();
+            self.stdout.take();
+            self.stderr.take();
             // Should we log error if one occurs during drop()?
             self.wait().ok();
         }
